@@ -31,7 +31,7 @@ MANIFEST = dict(
          "heap arrays, alloc/copyPosition/copy act on headers and cells, MovePreallocated reads the source through the source's headers and "
          "writes the destination's cells in place; proved for it: owns2_invariant (every object's Height/Stacks headers are its own embedded "
          "arrays, no array is owned by two objects, a live handle's BlackGroups lie in its own WhiteGroups array or an unowned one), "
-         "no_sharing, value_semantics2 (every live handle shows the pure value THROUGH its headers, nothing exempt) and that the in-place "
+         "no_sharing, value_semantics2 (every live handle shows the pure value THROUGH its headers, nothing exempt), clone_identical2 and that the in-place "
          "move simulates the value-level move on any heap. Both store models and the pure value model are run against the implementation "
          "after every operation of generated sequences for every live handle (L2 = the four headers of every held object named by the "
          "object whose embedded array they point into, i.e. the alias structure, against the addresses of the Go slices), and an "
